@@ -15,10 +15,22 @@ use std::{
 use crate::io::{FatPage, IoCommand, IoHandle, IoKind};
 
 pub(super) fn write_wal(mut wal_fd: &File, wal_blob: &[u8]) -> std::io::Result<()> {
+    #[cfg(nomt_verif)]
+    crate::verif_hook::begin(crate::verif_hook::Kind::SetLen, wal_fd.as_raw_fd(), 0, 0, "wal.write.set_len")?;
     wal_fd.set_len(0)?;
+    #[cfg(nomt_verif)]
+    crate::verif_hook::end(crate::verif_hook::Kind::SetLen, wal_fd.as_raw_fd(), 0, 0, "wal.write.set_len");
     wal_fd.seek(SeekFrom::Start(0))?;
+    #[cfg(nomt_verif)]
+    crate::verif_hook::begin(crate::verif_hook::Kind::Append, wal_fd.as_raw_fd(), 0, wal_blob.len() as u64, "wal.write")?;
     wal_fd.write_all(wal_blob)?;
+    #[cfg(nomt_verif)]
+    crate::verif_hook::end(crate::verif_hook::Kind::Append, wal_fd.as_raw_fd(), 0, wal_blob.len() as u64, "wal.write");
+    #[cfg(nomt_verif)]
+    crate::verif_hook::begin(crate::verif_hook::Kind::Fsync, wal_fd.as_raw_fd(), 0, 0, "wal.write.fsync")?;
     wal_fd.sync_all()?;
+    #[cfg(nomt_verif)]
+    crate::verif_hook::end(crate::verif_hook::Kind::Fsync, wal_fd.as_raw_fd(), 0, 0, "wal.write.fsync");
     Ok(())
 }
 
@@ -26,10 +38,18 @@ pub(super) fn write_wal(mut wal_fd: &File, wal_blob: &[u8]) -> std::io::Result<(
 ///
 /// Conditionally syncs the file to disk.
 pub(super) fn truncate_wal(mut wal_fd: &File, do_sync: bool) -> std::io::Result<()> {
+    #[cfg(nomt_verif)]
+    crate::verif_hook::begin(crate::verif_hook::Kind::SetLen, wal_fd.as_raw_fd(), 0, 0, "wal.truncate")?;
     wal_fd.set_len(0)?;
+    #[cfg(nomt_verif)]
+    crate::verif_hook::end(crate::verif_hook::Kind::SetLen, wal_fd.as_raw_fd(), 0, 0, "wal.truncate");
     wal_fd.seek(SeekFrom::Start(0))?;
     if do_sync {
+        #[cfg(nomt_verif)]
+        crate::verif_hook::begin(crate::verif_hook::Kind::Fsync, wal_fd.as_raw_fd(), 0, 0, "wal.truncate.fsync")?;
         wal_fd.sync_all()?;
+        #[cfg(nomt_verif)]
+        crate::verif_hook::end(crate::verif_hook::Kind::Fsync, wal_fd.as_raw_fd(), 0, 0, "wal.truncate.fsync");
     }
     Ok(())
 }
@@ -57,7 +77,11 @@ pub(super) fn write_ht(
         sent -= 1;
     }
 
+    #[cfg(nomt_verif)]
+    crate::verif_hook::begin(crate::verif_hook::Kind::Fsync, ht_fd.as_raw_fd(), 0, 0, "ht.fsync")?;
     ht_fd.sync_all()?;
+    #[cfg(nomt_verif)]
+    crate::verif_hook::end(crate::verif_hook::Kind::Fsync, ht_fd.as_raw_fd(), 0, 0, "ht.fsync");
 
     Ok(())
 }
